@@ -186,36 +186,34 @@ fn wall_geometry(wall: &hulc::bdl::Wall, bdl: &Data) -> WallGeom {
     let global_deviation = global_deviation_from_north(bdl);
 
     // Calculamos la posición en coordenadas globales, teniendo en cuenta las posiciones y desviaciones
-    // La posición del opaco es en coordenadas globales, incluyendo un giro en Z según desviación global del norte y la desviación del espacio
+    // El origen del espacio (x, y, z) está en coordenadas del edificio y sus ejes se giran respecto a ese origen,
+    // de modo que el punto en coordenadas de espacio se gira con la desviación del espacio, se traslada al origen
+    // del espacio y, finalmente, se gira con la desviación global del norte.
     // Los ángulos los cambiamos a radianes y de sentido horario (criterio BDL) a antihorario (-).
-    let angle = -(space.angle_with_building_north + global_deviation).to_radians();
-    let rot = Rotation3::from_euler_angles(0.0, 0.0, angle);
-    let position = rot
-        * match wall.location.as_deref() {
-            // 1. Casos definidos por vértice
-            Some(loc) if loc != "TOP" && loc != "BOTTOM" => {
-                let [p1, _] = space.polygon.edge_vertices(loc).unwrap();
-                point![
-                    p1.x + wall.x + space.x,
-                    p1.y + wall.y + space.y,
-                    wall.z + space.z
-                ]
+    let space_rot =
+        Rotation3::from_euler_angles(0.0, 0.0, -space.angle_with_building_north.to_radians());
+    let global_rot = Rotation3::from_euler_angles(0.0, 0.0, -global_deviation.to_radians());
+    let space_origin = Vector3::new(space.x, space.y, space.z);
+    let position = global_rot
+        * (space_rot
+            * match wall.location.as_deref() {
+                // 1. Casos definidos por vértice
+                Some(loc) if loc != "TOP" && loc != "BOTTOM" => {
+                    let [p1, _] = space.polygon.edge_vertices(loc).unwrap();
+                    point![p1.x + wall.x, p1.y + wall.y, wall.z]
+                }
+                // 2. Casos definidos mediante polígono o por el espacio
+                _ => {
+                    let height = match wall.location.as_deref() {
+                        // Los elementos top definidos por el polígono del espacio necesitan añadir la altura en su z
+                        Some("TOP") if wall.polygon.is_none() => space.height,
+                        // El resto de los definidos por polígono (sin ser el de espacio) ya tienen en la Z la cota final
+                        _ => 0.0,
+                    };
+                    point![wall.x, wall.y, wall.z + height]
+                }
             }
-            // 2. Casos definidos mediante polígono o por el espacio
-            _ => {
-                let height = match wall.location.as_deref() {
-                    // Los elementos top definidos por el polígono del espacio necesitan añadir la altura en su z
-                    Some("TOP") if wall.polygon.is_none() => space.height,
-                    // El resto de los definidos por polígono (sin ser el de espacio) ya tienen en la Z la cota final
-                    _ => 0.0,
-                };
-                point![
-                    wall.x + space.x,
-                    wall.y + space.y,
-                    wall.z + space.z + height
-                ]
-            }
-        };
+            + space_origin);
 
     let polygon = match (wall.location.as_deref(), &wall.polygon) {
         // 1. Elementos definidos por polígono
